@@ -236,8 +236,13 @@ func (r *Run) verify(e *vc.Engine, pkgPaths []string, sel Selection, withLemmas 
 	if withLemmas {
 		all = append(all, e.LemmaObligations()...)
 	}
-	for _, pp := range pkgPaths {
+	for i, pp := range pkgPaths {
 		all = append(all, e.RawLemmaObligations(pp)...)
+		// theory smoke test: the shared vocabulary once, the package's own reference functions per package
+		if i == 0 {
+			all = append(all, e.SmokeObligations(pp, true)...)
+		}
+		all = append(all, e.SmokeObligations(pp, false)...)
 	}
 	if nfun == 0 || len(all) == 0 {
 		return fmt.Errorf("vacuity guard: no functions under contract / no obligations selected")
